@@ -195,11 +195,17 @@ impl PacketSender {
                     0
                 };
 
-            let pending_packet = Rc::new(RefCell::new(PendingPacket::new(packet.data,
-                                                                         packet.channel_id,
-                                                                         sequence_id,
-                                                                         window_parent_lead,
-                                                                         channel_parent_lead)));
+            let mut pending_packet = PendingPacket::new(packet.data,
+                                                        packet.channel_id,
+                                                        sequence_id,
+                                                        window_parent_lead,
+                                                        channel_parent_lead);
+
+            if let SendMode::TimeSensitive = packet.mode {
+                pending_packet.set_time_sensitive(packet.flush_id);
+            }
+
+            let pending_packet = Rc::new(RefCell::new(pending_packet));
 
             let pending_packet_clone = Rc::clone(&pending_packet);
 
@@ -235,6 +241,12 @@ impl PacketSender {
         }
 
         return None;
+    }
+
+    // Accounts for a packet which was pulled from the send queue, but discarded before any of it
+    // was transmitted.
+    pub fn notify_discarded(&mut self, size: usize) {
+        self.total_size -= size;
     }
 
     // Responds to a receive window acknowledgement. All packet data beyond the new receive window
